@@ -2,18 +2,37 @@
 Property C11 — streaming subscribers materialize exactly the server's state.
 
 Model: `CV.Stream` (catalog writes and the events consul computes for them, the publish queue,
-topic buffers / snapshot splice / snapshot cache, subscriptions, the submatview handler state
-machine and the views). Helper lemmas: `CV.Proofs.Stream*`.
+topic buffers / snapshot splice / snapshot cache, subscriptions and their close states, the
+submatview handler state machine and the views). Helper lemmas: `CV.Proofs.Stream*`
+(`StreamClean` holds the statement definitions `ViewOk`, `Mono`, `Quiescent`, `CleanRun`,
+`CleanRunS`, `GuardRun`).
 
-The full-strength statements are FALSE for the faithful model (and for consul: the Go monitors
-reproduce every counterexample below on the real code on every run):
-  * `view_ok_all_schedules`, `indexes_monotone`: refuted by the commit/publish gap (DESIGN §6 #9),
-  * and, independently of any interleaving, by two event-generation shapes of catalog_events.go
-    and by events of a discarded history that survive `FSM.Restore`.
-They are kept visible as `…_counterexample` theorems. What is proved for ALL schedules of
-unbounded length: `view_ok_partial` / `no_change_skipped_partial` (every subscription starts with
-nothing queued for publication — the decidable-per-step hypothesis `CleanRun`),
-`forced_resubscribe_*` (no hypothesis).
+The full-strength statements
+    view_ok_all_schedules : ∀ acts, ViewOk (run (Sys.init ttl) acts)
+    indexes_monotone      : ∀ acts, Mono   (run (Sys.init ttl) acts)
+    no_change_skipped     : ∀ acts, Quiescent (run (Sys.init ttl) acts)
+    forced_resubscribe    : … and never left with a stale view
+are FALSE for the faithful model — and for consul: the Go harness replays every counterexample
+schedule below against the real code on every run and its monitors report the same outcome:
+  * the commit/publish gap (DESIGN §6 #9)                      `indexes_monotone_counterexample`,
+                                                               `view_ok_all_schedules_counterexample`
+  * events of a discarded history that survive `FSM.Restore`   `no_change_skipped_counterexample_restore`
+  * a resumed subscription on a pre-restore topic buffer       `forced_resubscribe_counterexample_local_resume`
+  * two event-generation shapes of catalog_events.go           `no_change_skipped_counterexample_connect_native`,
+                                                               `view_ok_counterexample_rename_order`
+What is proved, for ALL schedules of unbounded length and all write histories:
+  * under the per-action hypothesis `CleanRun` (subscriptions start with nothing queued and not via
+    the resume path; faithful, well-indexed writes; restore only while idle):
+    `view_ok_partial` (ViewOk ∧ Mono), `indexes_monotone_partial`, `no_change_skipped_partial`,
+    `quiescent_view_is_current`; `view_ok_partial_syntactic` replaces the semantic hypothesis on
+    writes by the syntactic `CleanWrite`, justified by `events_faithful_partial`;
+  * with the index guard of inmem/watch.go in the materializer, subscriptions may start at ANY
+    moment: `view_ok_with_index_guard`, `no_change_skipped_with_index_guard`,
+    `indexes_monotone_with_index_guard`;
+  * without any hypothesis: `forced_resubscribe_acl`, `forced_resubscribe_restore`,
+    `closed_subscription_delivers_nothing`.
+Not proved (monitored on the implementation only): the resume path of `Subscribe`, registrations
+that change the address of a node that already has instances, whole-node deregistration.
 -/
 import CV.Proofs.StreamClean
 namespace CV.Stream
